@@ -203,9 +203,11 @@ impl BitEnc {
         if n > 0 {
             // Create a full value block containing
             // as many copies of value as possible.
+            // Only the lowest `width` bits of value are stored,
+            // as in `push` and `set`.
             let mut value_block = 0;
             {
-                let mut v = u32::from(value);
+                let mut v = u32::from(value) & self.mask;
                 for _ in 0..32 / self.width {
                     value_block |= v;
                     v <<= self.width;
